@@ -124,6 +124,15 @@ def user_data_spec(rng, comp, mode):
         if mode == 'pseudo':
             row['kh_0'] *= rng.uniform(0.8, 1.2)
             row['K_salt'] = abs(row['K_salt']) * rng.uniform(0.8, 1.2) if row['K_salt'] > 0 else row['K_salt']
+        if mode == 'override':
+            # every value the constructor derives a property from differs from the built-in data base
+            for k in ('kh_0', '-dH_solR'):
+                row[k] *= rng.uniform(0.8, 1.2)
+            row['Vb'] = abs(row['Vb']) * rng.uniform(0.9, 1.1) if row['Vb'] > 0 else 3e-5 * rng.uniform(0.9, 1.1)
+            row['nu_bar'] = abs(row['nu_bar']) * rng.uniform(0.9, 1.1) if row['nu_bar'] > 0 else 4e-5 * rng.uniform(0.9, 1.1)
+            row['B'] = 4.5e-6 * rng.uniform(0.9, 1.1)
+            row['dE'] = 17000. * rng.uniform(0.9, 1.1)
+            row['K_salt'] = 1.2e-4 * rng.uniform(0.9, 1.1)
         ud[nme] = row
     return ud
 
@@ -266,6 +275,35 @@ def particle_list_spec(rng, ptype, kind=None):
             'P': 10 ** rng.uniform(5.5, 7.5), 'Sa': rng.uniform(33., 35.), 'Ta': rng.uniform(275., 295.)}
 
 
+def mixed_user_data_list_spec(rng, ptype, with_first, inert_between, tail=False):
+    """plume particle list (class 1 or 2) that mixes soluble particles WITH and WITHOUT user chemical data
+    (identical key set wherever present), in either order, optionally with an inert particle in between and
+    optionally a third soluble particle with the data again"""
+    comp = rng.choice(COMPS[:5])
+    ud = user_data_spec(rng, comp, 'override')
+    base = particle_list_spec(rng, ptype, 'soluble')
+    def sol(with_ud):
+        d = fluid_spec(rng, comp, 0, rich=False)
+        d['user_data'] = {k: dict(v) for k, v in ud.items()} if with_ud else {}
+        return d, [10 ** rng.uniform(-7, -4) for _ in comp]
+    seq = [sol(with_first)]
+    if inert_between:
+        seq.append((insol_spec(rng, True, rich=False), [10 ** rng.uniform(-7, -4)]))
+    seq.append(sol(not with_first))
+    if tail:
+        seq.append(sol(with_first))
+    out = []
+    for d, m0 in seq:
+        p = {'dbm': d, 'm0': m0, 'T0': rng.uniform(275., 300.), 'nb0': 10 ** rng.uniform(1, 5)}
+        p.update(wrap_spec(rng, rich=False))
+        if ptype == 2:
+            p.update({'x': 0., 'y': 0., 'z': rng.uniform(100., 1000.), 'nbe': 10 ** rng.uniform(1, 4), 'integrate': True,
+                      'sim_stored': True, 'farfield': False, 't': rng.uniform(0., 500.), 'exit': None})
+        out.append(p)
+    base.update({'kind': 'mixed-user-data', 'composition': comp, 'particles': out})
+    return base
+
+
 def build_particle_list(spec):
     """real SingleParticle / PlumeParticle / bent_plume_model.Particle objects of a list spec"""
     from tamoc import dispersed_phases, bent_plume_model
@@ -340,9 +378,11 @@ def _plume_particle_specs(rng, kind, comp, rich, nmax=3):
             if shared is None:
                 shared = d
             else:
-                # one chemical data base per simulation
+                # one chemical data base per simulation; a later particle may fall back to the built-in one
                 for k in ('user_data', 'delta', 'delta_groups'):
                     d[k] = shared[k]
+                if shared['user_data'] and rng.random() < 0.4:
+                    d['user_data'] = {}
             p = {'dbm': d, 'yk': mole_fractions(rng, len(comp)), 'mb0': rng.uniform(0.02, 0.5), 'de': rng.uniform(0.002, 0.008)}
         else:
             p = {'dbm': insol_spec(rng, True, rich), 'yk': [1.], 'mb0': rng.uniform(0.02, 0.5), 'de': rng.uniform(0.001, 0.005)}
